@@ -153,7 +153,7 @@ def gen_calc(rng, V, tbl="public", which=None, pool=None):
     which = which or rng.choice(
         ["nscat", "nsld", "xsld", "volume", "activation", "d2o_match", "fasta_const",
          "emission_table", "xsld_table", "nsld_table", "nsf_tables", "list", "mff", "f0", "mass",
-         "refraction", "composite", "d2o_sld", "fasta_seq", "formula_methods", "show_table"])
+         "refraction", "composite", "d2o_sld", "fasta_seq", "formula_methods", "show_table", "iadd"])
     if which in ("nscat", "nsld"):
         ev = ["calc", tbl, which, V.formula(rng, pool=pool), rng.choice([1.0, 2.5, 7.9]),
               rng.choice([0.5, 1.798, 4.75, 6.0])]
@@ -201,6 +201,9 @@ def gen_calc(rng, V, tbl="public", which=None, pool=None):
         return ["calc", tbl, which, kind, "".join(rng.choice(alphabet) for _ in range(rng.choice([1, 3, 8])))]
     if which == "formula_methods":
         return ["calc", tbl, which, V.formula(rng, xray_ok=True, pool=pool), rng.choice([1.0, 3.7])]
+    if which == "iadd":
+        return ["calc", tbl, which, V.formula(rng, natural_only=True, pool=pool),
+                rng.choice(["hill", "replace", "copy", "fasta", "lipid"])]
     if which == "show_table":
         return ["calc", tbl, which, V.formula(rng, natural_only=True), rng.choice([1.0, 2.0]),
                 rng.choice(["nist", "iaea"])]
@@ -222,7 +225,7 @@ def gen_calc(rng, V, tbl="public", which=None, pool=None):
 
 # calculators that share internal helpers: a burst revisits one compound through one family with
 # different secondary arguments (the way a contrast series or an energy scan is really computed)
-CALC_FAMILIES = [["d2o_match", "d2o_sld"], ["nscat", "nsld", "composite", "formula_methods"],
+CALC_FAMILIES = [["iadd"], ["d2o_match", "d2o_sld"], ["nscat", "nsld", "composite", "formula_methods"],
                  ["xsld", "refraction"], ["activation", "show_table"], ["volume"], ["mass"]]
 
 
@@ -253,6 +256,9 @@ def c09_burst_strata():
         [["calc", "public", "activation", "Co30Fe70", 10.0, 1e8, 10.0, [0, 1, 24], "iaea"],
          ["calc", "public", "activation", "Co30Fe70", 10.0, 1e8, 10.0, [0, 1, 24], "nist"],
          ["calc", "public", "show_table", "Co30Fe70", 1.0, "iaea"]],
+        [["calc", "public", "iadd", "C2H6O", "lipid"], ["calc", "public", "iadd", "C2H6O", "lipid"],
+         ["calc", "public", "iadd", "C2H6O", "fasta"], ["calc", "public", "iadd", "C2H6O", "fasta"],
+         ["calc", "public", "iadd", "C2H6O", "hill"], ["calc", "public", "iadd", "C2H6O", "copy"]],
         [["calc", "public", "volume", "Fe2O3", {"packing": "bcc"}], ["calc", "public", "volume", "Fe2O3"],
          ["calc", "public", "formula_methods", "Fe2O3", 3.7], ["calc", "public", "formula_methods", "Fe2O3", 1.0]],
     ]
@@ -295,7 +301,7 @@ def c09_strata(V):
         out.append(["import", m])
     for which in ["nscat", "nsld", "xsld", "volume", "activation", "d2o_match", "fasta_const",
                   "emission_table", "xsld_table", "nsld_table", "list", "mff", "f0", "refraction", "composite",
-                  "d2o_sld", "fasta_seq", "formula_methods", "show_table"]:
+                  "d2o_sld", "fasta_seq", "formula_methods", "show_table", "iadd"]:
         out.append(("calc", which))
     for t in NSF_TABLES:
         out.append(["calc", "public", "nsf_tables", t])
